@@ -93,10 +93,18 @@ def job_skeleton(job):
   return r
 
 
+# valid flatbuffers, but not "converter normal form" (C08's domain): the
+# library refuses model-wide duplicate tensor names by design, and the
+# converter gives activations buffer 0 or a buffer of their own
+NOT_CONVERTER_NORMAL_FORM = ('two_subgraphs_same_constant_name',
+                             'activations_share_empty_buffer')
+
+
 def make_jobs(prop, tier):
   fam = P.skeleton_family(tier)
   js = [Job(f'skel:{name}', job_skeleton,
-            {'prop': prop, 'skeleton': name, 'tier': tier}) for name in fam]
+            {'prop': prop, 'skeleton': name, 'tier': tier}) for name in fam
+        if not (prop == 'C08' and name in NOT_CONVERTER_NORMAL_FORM)]
   if tier == 'thorough':
     # seeded family of random DAGs with 2-4 operators (the seed is VERIF_SEED)
     for name in P.skeleton_family('thorough_dags'):
